@@ -33,6 +33,27 @@ func init() {
 				}
 				return ""
 			}
+			f := strings.Fields(line)
+			if f[0] == "did.parse" && g == "err" && strings.HasPrefix(m, "ok") {
+				// C16 says which strings the parser must REFUSE, and that the identifier FromPubKey prints for a key parses back. A
+				// string the model's parser lets through but from which no key can be extracted (bare codec, key material of the wrong
+				// length, a point not on the curve), or which is not the canonical identifier of its key, may be refused as well.
+				if code, mat, ok := codeAndMaterial(unhx(f[1])); ok {
+					if o := canonicalOracle(code, mat); o == "-" || o != hx(mat) {
+						return ""
+					}
+				}
+			}
+			if f[0] == "did.pubkey" {
+				// "no key" is "no key", whether the parser or the extraction said so
+				norm := func(s string) string {
+					if s == "perr" {
+						return "err"
+					}
+					return s
+				}
+				g, m = norm(g), norm(m)
+			}
 			if g != m {
 				return "go=" + strings.Fields(g + " -")[0] + " model=" + strings.Fields(m + " -")[0]
 			}
